@@ -90,6 +90,7 @@ func Load(dir string, overlay map[string][]byte, patterns ...string) (*Prog, err
 		// second build configuration (thorough tier): covers the build-tagged siblings
 		env = append(env, "GOARCH="+a, "CGO_ENABLED=0")
 	}
+	overlay = normaliseNoDefer(dir, overlay)
 	cfg := &packages.Config{
 		Mode:    packages.LoadSyntax,
 		Dir:     dir,
